@@ -1,3 +1,3 @@
 From Coq Require Import Extraction ExtrOcamlBasic.
-From SLU Require Import SymFill.
-Extraction "symfill_model.ml" sym_colcounts lu_colcounts.
+From SLU Require Import SymFill RowMergeExec.
+Extraction "symfill_model.ml" sym_colcounts lu_colcounts rm_colcounts.
